@@ -374,6 +374,8 @@ pub fn parse_iter<'a>(
         if let Some((line_num, line)) = skip(iter, context, next_item) {
             next_item = NextItem::NewLine; // clear conditional flag to typical state
             let line_num = line_num + 1;
+            #[cfg(feature = "verif-hooks")]
+            crate::verif_hooks::point("parse.line");
             let parsed_item = document::line(line);
             if let Ok(item) = parsed_item {
                 match item {
